@@ -184,6 +184,21 @@ pub fn check_data(
         header,
         pdu.len()
     );
+    // the same telegram into a buffer that is exactly as long as the telegram (a PHY may hand out
+    // any buffer that is large enough): the encoder needs the bytes it reports, not more
+    let mut exact = vec![0xAAu8; expect.len()];
+    let n2 = TelegramTx::new(&mut exact)
+        .send_data_telegram(header.clone(), pdu.len(), |b| b.copy_from_slice(pdu))
+        .bytes_sent();
+    ensure!(
+        n2 == n && exact[..] == expect[..],
+        "enc-exact-fit",
+        "encoding into a buffer of exactly {} bytes gives {:02x?} ({} bytes) for {:?}",
+        expect.len(),
+        exact,
+        n2,
+        header
+    );
     let want_reply = match fc {
         FunctionCode::Request { .. } if rc::request_expects_reply(ref_fc_byte(fc)) => Some(da),
         _ => None,
